@@ -112,13 +112,13 @@ func (tree *Tree[T]) Add(pattern string, h T, ms []types.Middleware[T], methods 
 		methods = AnyMethods
 	}
 
-	if err := tree.checkAmbiguous(pattern); err != nil {
-		return err
-	}
-
 	if tree.locker != nil {
 		tree.locker.Lock()
 		defer tree.locker.Unlock()
+	}
+
+	if err := tree.checkAmbiguous(pattern); err != nil {
+		return err
 	}
 
 	// 所有的验证都必须在修改节点之前完成
@@ -265,6 +265,12 @@ func (tree *Tree[T]) match(ctx *types.Context) *node[T] {
 func (tree *Tree[T]) Handler(ctx *types.Context, method string) (types.Node, T, bool) {
 	ctx.SetRouterName(tree.Name())
 
+	// 查找节点和读取节点上的处理函数必须处于同一个锁的范围之内
+	if tree.locker != nil {
+		tree.locker.RLock()
+		defer tree.locker.RUnlock()
+	}
+
 	if tree.hasTrace && method == http.MethodTrace {
 		return tree.node, tree.trace, true
 	}
@@ -273,7 +279,7 @@ func (tree *Tree[T]) Handler(ctx *types.Context, method string) (types.Node, T, 
 	if ctx.Path == "*" || ctx.Path == "" {
 		node = tree.node
 	} else {
-		node = tree.match(ctx)
+		node = tree.node.matchChildren(ctx)
 	}
 
 	if node == nil || node.size() == 0 {
@@ -314,6 +320,11 @@ func (tree *Tree[T]) Find(pattern string) *node[T] { return tree.node.find(patte
 //
 // NOTE: 会检测 pattern 是否存在于 tree 中。
 func (tree *Tree[T]) URL(buf *errwrap.StringBuilder, pattern string, ps map[string]string) error {
+	if tree.locker != nil {
+		tree.locker.RLock()
+		defer tree.locker.RUnlock()
+	}
+
 	n := tree.Find(pattern)
 	if n == nil || n.size() == 0 {
 		return fmt.Errorf("%s 并不是一条有效的注册路由项", pattern)
